@@ -374,6 +374,7 @@ func runC08(c *Ctx) {
 	// interpreted later, outside the decoder's error handling
 	checkAttrsValidatedAtDecode(c, "O7")
 	checkRequestConstructorErrorExamined(c, "O8")
+	checkShortInputIsReported(c, "O11")
 	// O9 (shared with C20.Z1): the unchecked primitives are called only where the length is known — also in the client
 	c.withOnly("Z1", "O9", func() { runC20(c) })
 	// O10 (shared with C07.R1): what could not be decoded is not passed on (a nil or half-decoded packet crashes a worker)
@@ -749,6 +750,7 @@ func runC20(c *Ctx) {
 	}
 	mapReduceKeyFilter = ""
 	checkResultsUsedOnlyWithoutError(c, "Z11")
+	checkShortInputIsReported(c, "Z12")
 }
 
 // clientAxioms adds: data returned by clientConn.sendPacket with a nil error, and result.data of a
@@ -1447,7 +1449,10 @@ func checkFrameLimits(c *Ctx, w *zworld) {
 					bound := lt.plus(linVar("p:maxPacketLength"), -1)
 					ok1, _ := z.prove(in, []lin{bound})
 					ok2, _ := z.prove(in, []lin{leq(linConst(5), lt, 0)})
-					_ = ms
+					// … and what is allocated is the frame's own length, not the limit (a 100-byte frame must not cost the
+					// caller's whole allowance)
+					c.check(stripConv(ms.Len) == lengthV || stripConv(ms.Len) == stripConv(lengthV), "O3", "filexfer readPacket allocates the frame's length", p.Pos(in.Pos()), "make([]byte, length)",
+						"filexfer's readPacket allocates "+affineOf(ms.Len).String()+" bytes for the body instead of the length the frame announces: every small packet costs the full limit")
 					c.check(ok1 && ok2, "O3", "filexfer readPacket limits", p.Pos(in.Pos()), "5 <= length <= maxPacketLength before allocating", "filexfer's readPacket allocates the body without the length limits")
 				}
 				// and nothing longer than four bytes is refused as too short: a packet with a type, an id and no body (an
@@ -1718,4 +1723,151 @@ func checkResultsUsedOnlyWithoutError(c *Ctx, rule string) {
 		})
 	}
 	c.check(n >= 3, rule, "dereferenced results of client calls", "?", fmt.Sprintf("%d uses", n), fmt.Sprintf("only %d uses found", n))
+}
+
+// checkShortInputIsReported (C08.O11, shared as C07.R22 and C20.Z12): "total" means a truncated input is *refused*, not
+// only survived.  Three shapes, all followed path by path:
+//   - a checked primitive of package sftp (unmarshal…Safe): from the side of its length guard on which the buffer is
+//     too short, every return carries an error that is not nil;
+//   - a decoder of package sftp that calls such a primitive (or unmarshalAttrs / unmarshalFileStat …): from the failing
+//     side of the test of the callee's error, every return carries a non-nil error;
+//   - a Consume… method of the filexfer Buffer: from the short side of its length guard, no return is reached without
+//     a store to the Buffer's sticky Err.
+// A decoder that answers "fine, empty string" for a cut packet lets the request be acted upon with made-up fields.
+func checkShortInputIsReported(c *Ctx, rule string) {
+	p := c.P
+	nPrim, nProp, nBuf := 0, 0, 0
+	lastIsNotNonNil := func(in ssa.Instruction) bool {
+		r, ok := in.(*ssa.Return)
+		if !ok || len(r.Results) == 0 {
+			return false
+		}
+		last := r.Results[len(r.Results)-1]
+		if !isErrorType(last.Type()) {
+			return false
+		}
+		cls, _ := classify(last, reachEnv, 0)
+		return cls != clsNonNil
+	}
+	// the side of a comparison on which len(b) is the smaller operand
+	shortSide := func(fn *ssa.Function, iff *ssa.If, isLen func(ssa.Value) bool) *ssa.BasicBlock {
+		cmp, ok := iff.Cond.(*ssa.BinOp)
+		if !ok {
+			return nil
+		}
+		lx, ly := isLen(cmp.X), isLen(cmp.Y)
+		if lx == ly {
+			return nil
+		}
+		// only the sides on which len is *strictly* smaller (a trim `if len(v) > n { v = v[:n] }` is no guard)
+		switch {
+		case cmp.Op == token.LSS && lx, cmp.Op == token.GTR && ly:
+			return iff.Block().Succs[0]
+		case cmp.Op == token.GEQ && lx, cmp.Op == token.LEQ && ly:
+			return iff.Block().Succs[1]
+		}
+		return nil
+	}
+	for _, fn := range p.LibFuncs() {
+		if fn.Pkg != p.Sftp || fn.Parent() != nil {
+			continue
+		}
+		nm := fn.Name()
+		// (a) the checked primitives
+		if strings.HasPrefix(nm, "unmarshal") && strings.HasSuffix(nm, "Safe") && len(fn.Params) >= 1 {
+			b := fn.Params[len(fn.Params)-1]
+			isLen := func(v ssa.Value) bool {
+				v = stripConv(v)
+				call, ok := v.(*ssa.Call)
+				return ok && builtinName(&call.Call) == "len" && len(call.Call.Args) == 1 && (call.Call.Args[0] == ssa.Value(b) || isByteSlice(call.Call.Args[0].Type()))
+			}
+			for _, blk := range fn.Blocks {
+				iff, ok := blk.Instrs[len(blk.Instrs)-1].(*ssa.If)
+				if !ok {
+					continue
+				}
+				side := shortSide(fn, iff, isLen)
+				if side == nil {
+					continue
+				}
+				nPrim++
+				c.check(!reachFromBlock(side, lastIsNotNonNil, nil), rule, fnName(fn)+" refuses input that is too short", p.Pos(iff.Pos()), "an error on the short side of the length guard",
+					"the checked primitive can return without an error although the buffer is shorter than what it is to decode: a truncated packet decodes to made-up values and is acted upon")
+			}
+		}
+		// (b) errors of the primitives are handed up
+		if strings.HasPrefix(nm, "unmarshal") || nm == "UnmarshalBinary" {
+			res := fn.Signature.Results()
+			if res.Len() == 0 || !isErrorType(res.At(res.Len()-1).Type()) {
+				continue
+			}
+			eachInstr(fn, func(in ssa.Instruction) {
+				call, ok := in.(*ssa.Call)
+				if !ok {
+					return
+				}
+				callee := call.Call.StaticCallee()
+				if callee == nil || callee.Pkg != p.Sftp || !strings.HasPrefix(callee.Name(), "unmarshal") {
+					return
+				}
+				cres := callee.Signature.Results()
+				if cres.Len() < 2 || !isErrorType(cres.At(cres.Len()-1).Type()) {
+					return
+				}
+				var errEx *ssa.Extract
+				for _, r := range *call.Referrers() {
+					if ex, ok := r.(*ssa.Extract); ok && ex.Index == cres.Len()-1 {
+						errEx = ex
+					}
+				}
+				if errEx == nil {
+					return
+				}
+				for _, nt := range nilTests(errEx) {
+					nProp++
+					c.check(!reachFromNilSide(nt, true, lastIsNotNonNil, nil), rule, fmt.Sprintf("%s hands up the error of %s", fnName(fn), callee.Name()), p.Pos(call.Pos()), "every return behind the failed step carries an error",
+						"after "+callee.Name()+" failed, "+fnName(fn)+" can return a nil error: the truncated packet counts as decoded")
+				}
+			})
+		}
+	}
+	// (c) the filexfer Buffer
+	for _, fn := range p.ModuleFuncs() {
+		if fn.Pkg != p.Sshfx || fn.Parent() != nil || fn.Signature.Recv() == nil || typeName(fn.Signature.Recv().Type()) != "Buffer" || !strings.HasPrefix(fn.Name(), "Consume") {
+			continue
+		}
+		isLen := func(v ssa.Value) bool {
+			v = stripConv(v)
+			call, ok := v.(*ssa.Call)
+			if !ok {
+				return false
+			}
+			if builtinName(&call.Call) == "len" {
+				return true
+			}
+			return call.Call.StaticCallee() != nil && call.Call.StaticCallee().Name() == "Len"
+		}
+		isErrStore := func(in ssa.Instruction) bool {
+			st, ok := in.(*ssa.Store)
+			if !ok || isNilConst(st.Val) {
+				return false
+			}
+			_, name, _, ok := fieldOf(st.Addr)
+			return ok && name == "Err"
+		}
+		for _, blk := range fn.Blocks {
+			iff, ok := blk.Instrs[len(blk.Instrs)-1].(*ssa.If)
+			if !ok {
+				continue
+			}
+			side := shortSide(fn, iff, isLen)
+			if side == nil {
+				continue
+			}
+			nBuf++
+			c.check(!reachFromBlock(side, isReturn, isErrStore), rule, fnName(fn)+" records short input in the sticky error", p.Pos(iff.Pos()), "b.Err is set on the short side of the length guard",
+				"a Consume method of the filexfer Buffer can return from its short-input branch without setting the sticky error: a truncated field decodes as zero and nobody is told")
+		}
+	}
+	c.check(nPrim >= 3 && nProp >= 20 && nBuf >= 4, rule, "length guards and error hand-ups examined", "?", fmt.Sprintf("%d primitive guards, %d hand-ups, %d Buffer guards", nPrim, nProp, nBuf), fmt.Sprintf("only %d primitive guards, %d hand-ups and %d Buffer guards found", nPrim, nProp, nBuf))
 }
